@@ -63,6 +63,12 @@ def stmt (d : Drv) : Bool × Drv :=
       let (f, d) := d.prim
       if f then (false, { d with cur := some { t with poisoned := true } }) else (true, d)
 
+/-- advancing to a row that exists (`Rows.Next`): a failure here is reported through `Rows.Err`, `Next` itself just
+returns false -/
+def next (d : Drv) : Bool × Drv :=
+  let (f, d) := d.prim
+  if f then (false, { d with cur := d.cur.map fun t => { t with poisoned := true } }) else (true, d)
+
 /-- row fetch (`Scan`) -/
 def scan (d : Drv) : Bool × Drv :=
   let (f, d) := d.prim
@@ -79,11 +85,14 @@ def commit (d : Drv) : Bool × Drv :=
     else (true, { d with cur := none, log := d.log ++ [("commit", t.id)],
                           committed := t.pending.foldl (fun c kv => AList.set kv.1 kv.2 c) d.committed })
 
-/-- `Rollback` -/
+/-- `Rollback`: one primitive call when a transaction is open; whether or not the call fails, the transaction is over
+(the handle is closed either way) -/
 def rollback (d : Drv) : Drv :=
   match d.cur with
   | none => d
-  | some t => { d with cur := none, log := d.log ++ [("rollback", t.id)] }
+  | some t =>
+    let (_, d) := d.prim
+    { d with cur := none, log := d.log ++ [("rollback", t.id)] }
 
 /-- what a query sees: pending writes over the committed table -/
 def view (d : Drv) (k : Bytes) : Option Bytes :=
@@ -144,15 +153,19 @@ def put (p : Pg) (k v : Bytes) : PgRes × Pg :=
       ({ p with drv := d }).stopSingle
 
 /-- one `SELECT value WHERE key = k` with row fetch: `none` = statement or fetch failed (the
-caller aborts), `some none` = no row, `some (some v)` = value -/
+caller aborts), `some none` = no row, `some (some v)` = value. A row that cannot be advanced to (`Rows.Next` returns
+false because of an error) is what the wrapper takes for "no row"; the transaction is then in the failed state. -/
 def query (p : Pg) (k : Bytes) : Option (Option Bytes) × Pg :=
   let (ok, d) := p.drv.stmt
   if !ok then (none, { p with drv := d })
   else match d.view k with
     | none => (some none, { p with drv := d })
     | some v =>
-      let (ok, d) := d.scan
-      if ok then (some (some v), { p with drv := d }) else (none, { p with drv := d })
+      let (ok, d) := d.next
+      if !ok then (some none, { p with drv := d })
+      else
+        let (ok, d) := d.scan
+        if ok then (some (some v), { p with drv := d }) else (none, { p with drv := d })
 
 /-- `Get` with the translation key (if any) tried first, then the default key. Go returns the value
 together with the commit error when the single-operation commit fails; the error wins here. -/
